@@ -4,6 +4,7 @@ import (
 	"bytes"
 	"context"
 	stdjson "encoding/json"
+	"math/rand"
 	"reflect"
 	"sort"
 	"strings"
@@ -243,7 +244,10 @@ func c13Case(c *rt.Ctx, sub int, rels []c13Rel, v reflect.Value, t reflect.Type,
 	}
 	c.Eval(1)
 	input := map[string]any{"type": t.String(), "value": stdRender(x)}
-	for i := range rels {
+	// the relations run in an order drawn per case: every entry point gets every other one as
+	// its predecessor on the pooled contexts (option bits, colour scheme, context left behind)
+	order := rand.New(rand.NewSource(c.Seed*1000003 + int64(c.Idx)*8191 + int64(sub))).Perm(len(rels))
+	for _, i := range order {
 		r := &rels[i]
 		var got, want []byte
 		var err error
